@@ -41,7 +41,9 @@ def next (max : Nat) (bs : Bytes) : Next :=
     let lenNib := b0.toNat / 16
     let tkl := b0.toNat % 16
     let e := extBytes lenNib
-    if r.length < e then .needMore
+    -- RFC 8323 §3.2: token lengths 9-15 are reserved and must be treated as a message format error
+    if tkl > 8 then (if e + 1 + tkl ≤ r.length then .mustClose else .mayClose)
+    else if r.length < e then .needMore
     else
       let total := 1 + e + 1 + tkl + declared lenNib (r.take e)
       let headerComplete := e + 1 + tkl ≤ r.length
